@@ -75,4 +75,38 @@ CLAIMS = {
         "line number is a line of the input (provenance of the number is decided under C10).",
         "technique": "guard-dominance and must-pass-through on the CFG, exception-edge reachability, kind-set dataflow",
     },
+    "C10": {
+        "level": "Line accounting decided rule by rule: newline accounting of all 38 lexer rules (automaton containment vs. lineno update), "
+        "token stamping from a current_location() evaluated after the fetch (path-sensitive), current_location() = lineno - line_offset and "
+        "#line offset = physical lineno - N + 1 by linear-form normalisation, file name from the quoted group, and a forward must-fact "
+        "(CFG + call-site meet) that state.location is stored after the declaration began at each of the 23 non-block callback sites; "
+        "a peeked location must be followed by a consumption before it is reported.",
+        "note": "Not decided: #line directives placed inside a declaration; which line of a multi-line declaration is reported (any line of "
+        "its extent satisfies the statement). Trusted: PLY stamps tok.lineno before the rule function (anchor checked).",
+        "technique": "must-pass-through dataflow over CFG and call graph; linear-form normalisation of the offset arithmetic; automaton containment queries",
+    },
+    "C11": {
+        "level": "Single attribution (at most one consuming construction per path for every doc value, with return-correlated call summaries), "
+        "reset points of the top-level loop and the attribute-only exception set, who may ask for leading/trailing doc text and under which "
+        "guard, prefix set and accumulation in _extract_comments, and the shape of both comment scans (every comment recorded, blank line "
+        "detaches, real tokens kept).",
+        "note": "Not decided: the exact text of the doc string (string values).",
+        "technique": "linear-use counting dataflow with call summaries; who-may-call; must-pass-through on the comment scans",
+    },
+    "C13": {
+        "level": "Pair agreement and opener dominance at all 7 _discard_contents sites, the transition table of the counting loop (initial "
+        "value, +1/-1 under the right tests by linear-form normalisation, single exit on 0, one token per iteration), opener hand-over and "
+        "no use of consumed tokens in the five attribute/static_assert consumers, and linear use / push / LIFO / empty-stack return of the balanced consumer.",
+        "note": "Not decided: that _discard_ctor_initializer finds the function body for every initializer expression, and result equality "
+        "under region replacement as such (runtime relation).",
+        "technique": "guard dominance, linear-form normalisation of counter updates, linear-use analysis, LIFO API-discipline check",
+    },
+    "C14": {
+        "level": "No-drop / no-duplicate linear use of tokens in the 7 collector functions (path-sensitive), delimiter-slice dataflow "
+        "(exactly one [1:-1] into throw/noexcept/decltype/array size, none elsewhere, through helper return summaries), terminator sets vs. "
+        "the next consumer (context-sensitive follower search), one-to-one token mapping, closer set vs. token maps, LIFO use of the expectation stack.",
+        "note": "One genuine finding is listed (D2: '::' dropped in requires-clauses; a test pins it). Not decided: which pending opener a "
+        "tolerated '>' is matched with beyond the LIFO discipline; position-specific value correctness (e.g. ']]' closing two subscripts).",
+        "technique": "linear-use (typestate) analysis on the CFG; slice-count dataflow with interprocedural summaries; follower-set search",
+    },
 }
